@@ -20,6 +20,7 @@ def share : ShareFacts :=
     shortcutGuardsSingle := true,       -- since 647e2cf an arm `n.nleft > 1 && (isCall(src) || … aCompositeLit)` keeps them for single assignments
     structLitSetsSlot := true,          -- doComposite: `getFrame(f, l).data[frameIndex] = a`
     structLitAssignSets := true,        -- since 3590fb8: `case n.anc.kind == assignStmt: d.Set(a)`
+    structLitInTemp := true,            -- doComposite exec starts with `a := reflect.New(rt).Elem()`, the destination `d := value(f)` is looked at after the fields
     arrayLitSets := true,
     arrayLitFresh := true,              -- since 1436613 (was F04-4, F04-11): `value := genValueLit(n)` allocates a new cell per evaluation
     arrayLitAssignInPlace := true,      -- … `if n.anc.kind == assignStmt { return valueGenerator(n, n.findex) }`
